@@ -42,6 +42,7 @@ func callDisplayName(c *ssa.CallCommon) string {
 // callOrdinals numbers the calls of the function statically: per display name, in block order.
 func (vc *VC) callOrdinals() {
 	vc.callOrd = map[ssa.Instruction]int{}
+	vc.callOrdQ = map[ssa.Instruction]string{}
 	vc.callByName = map[string]ssa.Instruction{}
 	count := map[string]int{}
 	for _, b := range vc.fn.Blocks {
@@ -51,6 +52,15 @@ func (vc *VC) callOrdinals() {
 				vc.callOrd[in] = count[n]
 				vc.callByName[fmt.Sprintf("%s#%d", n, count[n])] = in
 				count[n]++
+				// package-qualified form for static callees: hmac.New#0
+				if fn := c.Common().StaticCallee(); fn != nil {
+					if p := fnPackage(fn); p != nil {
+						q := p.Name() + "." + n
+						vc.callOrdQ[in] = fmt.Sprintf("%s#%d", q, count[q])
+						vc.callByName[vc.callOrdQ[in]] = in
+						count[q]++
+					}
+				}
 			}
 		}
 	}
@@ -88,15 +98,41 @@ func (vc *VC) runAnchors(st *State, when string, site ssa.Instruction, name stri
 		return
 	}
 	want := fmt.Sprintf("%s call %s#%d", when, name, ord)
+	wantQ := ""
+	if q, ok := vc.callOrdQ[site]; ok {
+		wantQ = fmt.Sprintf("%s call %s", when, q)
+	}
 	for i, ac := range vc.contract.Asserts {
-		if strings.Join(strings.Fields(ac.Anchor), " ") != want {
+		if a := strings.Join(strings.Fields(ac.Anchor), " "); a != want && a != wantQ {
 			continue
 		}
 		vc.anchorsHit[i] = true
 		env := vc.baseEnv(st)
 		blk := site.Block()
 		idx := vc.anchorIndex(site)
-		env.local = func(n string) (Val, bool) { return vc.localByNameAt(n, blk, idx, st) }
+		env.local = func(n string) (Val, bool) {
+			// loop-carried variables of the enclosing loops (by source name; $rangeindex, $k)
+			for _, li := range vc.cfg.loops {
+				if !li.body[blk] {
+					continue
+				}
+				for _, in := range li.header.Instrs {
+					ph, ok := in.(*ssa.Phi)
+					if !ok {
+						break
+					}
+					if v, known := vc.vals[ph]; known {
+						if ph.Comment == n || "$"+ph.Comment == n {
+							return v, true
+						}
+						if n == "$k" && ph.Comment == "rangeindex" {
+							return mathInt(app("+", v.S, "1")), true
+						}
+					}
+				}
+			}
+			return vc.localByNameAt(n, blk, idx, st)
+		}
 		for k, a := range args {
 			env.vars[fmt.Sprintf("arg%d", k)] = a
 		}
